@@ -170,8 +170,12 @@ def d2(rep, f, c):
                 if a_[0] == 'init' and a_[1] not in byt:
                     byt.append(a_[1])
                 rv_ = p_.env.get(0)
-                if p_.end[0] == 'return' and rv_ is not None and rv_[0] == 'init' and rv_[1] not in tot:
-                    tot.append(rv_[1])
+                if p_.end[0] == 'return' and rv_ is not None:
+                    # the running count: the loop-carried usize local the returned sum starts from
+                    for s_ in walk(rv_):
+                        if isinstance(s_, tuple) and len(s_) == 2 and s_[0] == 'init' and sb.locals[s_[1]]['ty'] == 'usize' and \
+                                len(sb.defs.get(s_[1], [])) >= 2 and s_[1] not in tot:
+                            tot.append(s_[1])
     if len(heads) != 1 or len(tot) != 1 or len(byt) != 1:
         rep.undecidable('C19-D2.single', sfn, 'loop / accumulators not found', site, c)
         return
@@ -194,9 +198,19 @@ def d2(rep, f, c):
         rv = p.env.get(0)
         if arm and arm[0][2] == 'None':
             kinds.add('end')
-            if not (p.end[0] == 'return' and rv == T):
+            # documented: "... or the length of the input if all bytes in the input decode directly": when the remainder is all
+            # ASCII the answer is what was counted so far PLUS the length of that remainder (the first build of this rule had
+            # transcribed the code here — `return total` — instead of the documentation, and so agreed with a genuine defect)
+            def is_total_plus_rest(e):
+                try:
+                    t_, k_ = add_terms(e)
+                except Exception:
+                    return False
+                return k_ == 0 and sorted(t_, key=repr) == sorted([T, ('len', strip_ref(B))], key=repr)
+            if not (p.end[0] == 'return' and rv is not None and is_total_plus_rest(rv)):
                 ok = False
-                why = 'all-ASCII remainder must return the accumulated total'
+                why = ('when the rest of the buffer is all ASCII the function must return total + bytes.len() (every remaining byte is compatible); '
+                       'it returns %s: the answer stops short inside an ASCII run (e.g. Some(0) for b"abc")' % expr_str(rv, sb)[:60] if rv is not None else 'no value')
             continue
         pay = ('fld', ('as', res, 'Some'), '0')
         non_ascii, offset = ('fld', pay, '0'), ('fld', pay, '1')
@@ -254,6 +268,132 @@ def d3(rep, f, c):
         rep.ob('C19-D3', name, not miss, 'state field(s) %r written by the decode bodies are not consulted: a mid-sequence decoder could claim to be neutral' % miss,
                sp_str(b.raw['span']), {'written': sorted(w), 'read': sorted(rd)}, c)
     rep.floor('C19-D3', 'in_neutral_state implementations', n, 7, c, exact=True)
+
+
+def initial_fields(f, ty):
+    """{field: resolved initial value} from the struct literal in `ty::new` / `ty::new_inner`"""
+    for ctor in (ty + '::new', ty + '::new_inner'):
+        b = f.body(ctor)
+        if b is None:
+            continue
+        r = Resolver(b)
+        for blk in b.blocks:
+            for st in blk['s']:
+                if 'assign' in st and 'aggregate' in st['rv'] and isinstance(st['rv']['aggregate'], dict) and st['rv']['aggregate'].get('adt') == ty:
+                    return {n_: r.operand(o) for n_, o in zip(st['rv']['aggregate']['fields'], st['rv']['ops'])}
+    return None
+
+
+def enum_pred_true_variants(f, fn):
+    """variants for which a crate predicate on an enum (`Pending::is_none(&self)`) returns true; None if not decidable"""
+    b = f.body(fn)
+    if b is None:
+        return None
+    out = set()
+    for p in region_paths(b, 0):
+        if p.end[0] != 'return':
+            continue
+        vs = [e for e in p.conds() if e[1][0] == 'variant']
+        rv = p.env.get(0)
+        if len(vs) != 1 or rv is None or rv[0] != 'c':
+            return None
+        if rv[1]:
+            out |= set(vs[0][2] if isinstance(vs[0][2], tuple) else (vs[0][2],))
+    return out
+
+
+def d3_exact(rep, f, c):
+    """in_neutral_state answers true only in the state the constructor builds: every test on a path to `true` pins one state field
+    to exactly its initial value (`lead.is_none()` with lead: None, `lead == 0` with lead: 0, `state == Ascii` ...).  A test that
+    is also true for another value of the field (`lead.unwrap_or(0) == 0` holds for Some(0)) lets a mid-sequence decoder
+    claim to be neutral."""
+    n = 0
+    for name, b in sorted(f.bodies.items()):
+        if not name.endswith('Decoder::in_neutral_state'):
+            continue
+        ty = name.rsplit('::', 1)[0]
+        site = sp_str(b.raw['span'])
+        init = initial_fields(f, ty)
+        if init is None:
+            rep.undecidable('C19-D3.exact', name, 'constructor literal of %s not found' % ty, site, c)
+            continue
+
+        def fld(e):
+            e = strip_ref(e)
+            while e[0] in ('deref', 'ref'):
+                e = strip_ref(e[1])
+            return e[2] if e[0] == 'fld' and e[1] == ('deref', SELF) else None
+
+        def literal(e, truth):
+            """-> (field, ok) if `e == truth` pins a field to its initial value exactly; (field or None, False) otherwise"""
+            if e[0] == 'un' and e[1] == 'Not':
+                return literal(e[2], not truth)
+            if e[0] == 'c':
+                return ('', bool(e[1]) == truth)
+            fl = fld(e)
+            if fl is not None:                       # a bool field tested directly
+                return (fl, init.get(fl) == ('c', 1 if truth else 0, 'bool'))
+            if e[0] == 'call' and len(e[2]) >= 1:
+                fn_ = e[1] or ''
+                fl = fld(e[2][0])
+                iv = init.get(fl)
+                ivn = variant_name(iv) if iv is not None and iv[0] == 'agg' else None
+                if fl is not None and fn_.startswith('core::option::Option::<T>::') and fn_.endswith(('::is_none', '::is_some')):
+                    return (fl, ivn == 'None' and truth == fn_.endswith('::is_none'))
+                if fl is not None and len(e[2]) == 1 and f.body(fn_) is not None:
+                    tv = enum_pred_true_variants(f, fn_)
+                    return (fl, truth is True and tv is not None and tv == {ivn})
+                if fl is not None and len(e[2]) == 2 and fn_.endswith(('::eq', '::ne')) and 'PartialEq' in fn_:
+                    other = strip_ref(e[2][1])
+                    while other[0] in ('deref', 'ref'):
+                        other = strip_ref(other[1])
+                    same = other == iv
+                    if other[0] == 'cptr' and other[2] == 0 and fn_.startswith('<') and ' as ' in fn_:
+                        # a promoted constant of a fieldless enum: its memory is the discriminant
+                        import json as _json
+                        adt = f.adts.get(fn_[1:fn_.index(' as ')])
+                        tgt = _json.loads(other[1])
+                        if adt is not None and 'mem' in tgt and str(tgt['mem']) in f.mems and all(not v_['fields'] for v_ in adt['variants']):
+                            raw = f.mem_bytes(tgt['mem'])
+                            dv = int.from_bytes(raw, 'little')
+                            names = [v_['name'] for v_ in adt['variants'] if v_['discr'] == dv]
+                            same = len(names) == 1 and names[0] == ivn
+                    elif other[0] != 'agg':
+                        return (fl, False)
+                    return (fl, same and truth == fn_.endswith('::eq'))
+                return (fl, False)
+            if e[0] == 'bin' and e[1] in ('Eq', 'Ne'):
+                for a_, b_ in ((e[2], e[3]), (e[3], e[2])):
+                    fl = fld(a_)
+                    if fl is not None and b_[0] == 'c':
+                        iv = init.get(fl)
+                        return (fl, iv is not None and iv[0] == 'c' and iv[1] == b_[1] and truth == (e[1] == 'Eq'))
+            return (None, False)
+        bad = []
+        ntrue = 0
+        for p in region_paths(b, 0):
+            if p.end[0] != 'return':
+                continue
+            rv = p.env.get(0)
+            lits = [(e[1], e[2]) for e in p.conds() if isinstance(e[2], bool)]
+            if rv is None:
+                continue
+            if rv[0] == 'c':
+                if not rv[1]:
+                    continue
+            else:
+                lits.append((rv, True))
+            ntrue += 1
+            for e_, t_ in lits:
+                fl, ok = literal(e_, t_)
+                if not ok:
+                    bad.append('%s%s' % ('' if t_ else '!', expr_str(e_, b)[:90]))
+        n += 1
+        rep.ob('C19-D3.exact', name, not bad and ntrue >= 1,
+               'in_neutral_state can answer true in a state other than the one %s::new builds: the test %s does not pin its field to exactly the initial value '
+               '(a decoder holding part of a sequence would report itself neutral)' % (ty, sorted(set(bad))[:2]) if bad else 'no path answers true',
+               site, {'initial': {k: expr_str(v, b)[:40] for k, v in init.items()}}, c)
+    rep.floor('C19-D3.exact', 'in_neutral_state implementations', n, 7, c, exact=True)
 
 
 def d4(rep, f, c):
@@ -317,6 +457,7 @@ def run(rep, facts, tier):
         d1(rep, f, c)
         d2(rep, f, c)
         d3(rep, f, c)
+        d3_exact(rep, f, c)
         d4(rep, f, c)
         d5(rep, f, c)
     return ('other', MANIFEST['text'], [])
